@@ -12,7 +12,7 @@ META = dict(
               "invariant (client MTU >= 23 in every reachable state, frame lemma over the 14 handlers) and case analysis; "
               "monitor tracking the negotiated MTU from the observed exchanges; tie: generated server<> instantiations "
               "(max MTU 23/24/65/100/300, values longer than the MTU) under ASan/UBSan, random histories on 3 connections",
-    level_note="see docs/C08.md")
+    level_note="proved: negotiated MTU = min(server, last valid client MTU) >= 23 after any history; every response / notification <= min(buffer, MTU); invalid exchanges rejected and ignored; TRACE LEVEL: monitor (clauses fault, pdu_exceeds_mtu, mtu_rejected_changed, exchange answers) accepts every fault-free model trace of every wf configuration (C08_monitor_core_accepts_model). Tied only: exact-length clause mtu_value (C08_monitor_accepts_model_full is a Definition). See docs/C08.md")
 
 
 class C08(AttBase):
